@@ -40,7 +40,7 @@ inductive Res (α : Type)
   | ok (a : α)
   | panic
   | unmodelled
-  deriving Repr
+  deriving Repr, DecidableEq
 
 namespace Res
 @[inline] def bind {α β : Type} : Res α → (α → Res β) → Res β
@@ -586,8 +586,8 @@ def longRestrNodes : Nat → Nat → LongQ → Res LongQ
     let l ← longRestrRange j 0 s l
     longRestrNodes (j + 1) n l
 
-/-- db.go 886–931 (and its Expried twin): like `Restructuring` but `nodeIndex` is NOT decremented for the freed
-nodes and `queueSize` is recomputed from `baseQueueSize`; an emptied queue is `Reset` by `FreeLongWaitLockQueue`
+/-- db.go 886–932 (and its Expried twin): like `Restructuring`, but (since the repair) ALL nodes behind node `tailNodeIndex+1` are freed, starting at `nodeIndex`, and
+`queueSize` is recomputed from `baseQueueSize`; an emptied queue is `Reset` by `FreeLongWaitLockQueue`
 (the harness gives the free list room, so the Reset always happens). -/
 def longRestructuring (l : LongQ) : Res LongQ := do
   let T := l.q.tni
@@ -596,14 +596,23 @@ def longRestructuring (l : LongQ) : Res LongQ := do
   let l : LongQ := { l with q := q, lockCount := 0, freeCount := 0 }
   let l ← longRestrNodes 0 T l
   let l ← longRestrRange T 0 K l
-  let (q, T') ← restrFree T T l.q
+  -- since the repair of /repo: `tailNodeIndex = nodeIndex` first, so spare nodes behind the old tail node are
+  -- freed too, and `nodeIndex--` once per freed node
+  let N := l.q.nodeIndex
+  let (q, T') ← restrFree N N l.q
+  let d := N - T'
   let qs := wrap32 ((q.baseQueueSize : Int) * shl1 T')
   let qs := if qs > (maxMalloc : Int) then (maxMalloc : Int) else qs
   let q : Q := { q with queueSize := qs }
   let n ← len q
-  if n = 0 then do
-    let q ← reset q
-    pure { l with q := q, lockCount := -1, freeCount := -1 }
-  else pure { l with q := q }
+  if q.nodeIndex < d then
+    -- nodeIndex would be stored negative: Reset (empty queue) panics on nodeQueueSizes[negative]
+    if n = 0 then Res.panic else Res.unmodelled
+  else do
+    let q : Q := { q with nodeIndex := q.nodeIndex - d }
+    if n = 0 then do
+      let q ← reset q
+      pure { l with q := q, lockCount := -1, freeCount := -1 }
+    else pure { l with q := q }
 
 end Slock.Queue
